@@ -150,8 +150,29 @@ def rule_routes(ctx) -> None:
         ok = ctag == f"EnumCmdTag.{tag}" and ptag == f"header.tag != EnumCmdTag.{tag}"
         chk.decide(ok, "C04.registry", f"{CMD}::{cname}", f"registered under {tag}, constructed with {ctag}, parse rejects other tags", f"registry key {tag}, constructor tag {ctag}, parse check `{ptag}`", f"EnumCmdTag.{tag} everywhere", A.loc(CMD, cls.node))
     pc = ctx.func(CMD, "parse_command")
-    ok = any(isinstance(n2, ast.If) and norm(n2.test) in ("cmd_tag.tag == header_tag", "header_tag == cmd_tag.tag") for n2 in ast.walk(pc.node)) and "data[1]" in norm(pc.node) and isinstance(A.body_of(pc.node)[-1], ast.Raise)
-    chk.decide(ok, "C04.registry", pc.qual, "dispatch on the header's tag byte (offset 1), unknown tags raise", "dispatch shape changed", "", A.loc(CMD, pc.node))
+    # dispatch: key = data[1]; either a scan of _CMD_CLASS comparing `<key>.tag` with it, or a lookup in a table derived as {k.tag: v for k, v in _CMD_CLASS.items()}
+    tagkey = None
+    for n2 in ast.walk(pc.node):
+        if isinstance(n2, ast.Compare) and len(n2.ops) == 1 and isinstance(n2.ops[0], ast.Eq):
+            l, r = norm(A.inline_locals(pc.node, n2.left)), norm(A.inline_locals(pc.node, n2.comparators[0]))
+            if {l, r} == {"cmd_tag.tag", "data[1]"}:
+                loops = [a for a in A.ancestors(n2) if isinstance(a, ast.For) and norm(a.iter) == "_CMD_CLASS.items()"]
+                if loops:
+                    tagkey = "scan"
+    if tagkey is None:
+        derived = {k: v for k, v in prog.module_consts(m).items() if isinstance(v, ast.DictComp) and len(v.generators) == 1 and norm(v.generators[0].iter) == "_CMD_CLASS.items()"}
+        for name, dc in derived.items():
+            tg = dc.generators[0].target
+            if isinstance(tg, ast.Tuple) and len(tg.elts) == 2 and norm(dc.key) == f"{norm(tg.elts[0])}.tag" and norm(dc.value) == norm(tg.elts[1]) and not dc.generators[0].ifs:
+                for c in ast.walk(pc.node):
+                    if isinstance(c, ast.Call) and norm(c.func) == f"{name}.get" and c.args and norm(A.inline_locals(pc.node, c.args[0])) == "data[1]":
+                        tagkey = "table"
+                    if isinstance(c, ast.Subscript) and norm(c.value) == name and norm(A.inline_locals(pc.node, c.slice)) == "data[1]":
+                        tagkey = "table"
+    rets = [norm(r.value) for r in A.returns_in(pc.node) if r.value is not None]
+    raises = [e for _p, e in A.paths(A.body_of(pc.node)) if e == "raise"]
+    ok = tagkey is not None and rets == ["cmd.parse(data)"] and bool(raises)
+    chk.decide(ok, "C04.registry", pc.qual, f"dispatch on the header's tag byte (offset 1) over _CMD_CLASS ({tagkey}), unknown tags raise", f"dispatch form {tagkey}, returns {rets}, raising paths {len(raises)}", "", A.loc(CMD, pc.node))
     # tags unique
     tags = [prog.fold(enum.consts[k], m, enum)[0] for k in members]
     chk.decide(len(set(tags)) == len(tags), "C04.registry", f"{CMD}::EnumCmdTag", "command tags are unique", f"{tags}", "", A.loc(CMD, enum.node))
@@ -432,7 +453,7 @@ def rule_structure(ctx) -> None:
     chk.decide(ok, "C04.signed-range", pa.qual, "parse verifies the signature over data[offset : signature_index]", [norm(a) for a in vd[0].args] if vd else "", "", A.loc(IMG, pa.node))
     p20 = ctx.own(IMG, "BootImageV20", "parse")
     vd = [c for c in A.calls_in(p20.node, "verify_data")]
-    ok = bool(vd) and [norm(a) for a in vd[0].args] == ["data[image_size:]", "data[:image_size]"] and norm(A.single_def(p20.node, "image_size")) == "header.image_blocks * 16"
+    ok = bool(vd) and [norm(a) for a in vd[0].args] == ["data[image_size:]", "data[:image_size]"] and ctx.vnorm(p20, A.single_def(p20.node, "image_size")) == "header.image_blocks * 16"
     chk.decide(ok, "C04.signed-range", p20.qual, "V2.0 verifies data[:image_size] against the trailing signature", [norm(a) for a in vd[0].args] if vd else "", "", A.loc(IMG, p20.node))
     e20 = ctx.own(IMG, "BootImageV20", "export")
     sig = [c for c in A.calls_in(e20.node, "get_signature")]
